@@ -5,6 +5,8 @@
 #include <glm/glm.hpp>
 #include <glm/gtc/matrix_inverse.hpp>
 #include <glm/gtx/matrix_operation.hpp>
+#include <glm/gtx/matrix_query.hpp>
+#include <glm/gtx/matrix_factorisation.hpp>
 using namespace orc;
 typedef long double LD;
 template<int N> struct LM { LD a[N][N]; };   // a[c][r]
@@ -45,6 +47,13 @@ template<int N, class T> static void check(glm::mat<N, N, T> const& M, LD kappa,
 	{ glm::mat<N, N, T> A = glm::transpose(M); for (int c = 0; c < N; ++c) for (int r = 0; r < N; ++r) A[c][r] += (T)((c + 2 * r) % 3); auto Q = A / M; auto Qc = A; Qc /= M; LM<N> LA = toL(A); LD ed = 0, ec = 0, na = fro(LA) * fro(Li);
 	  for (int c = 0; c < N; ++c) for (int r = 0; r < N; ++r) { LD w = 0; for (int k = 0; k < N; ++k) w += LA.a[k][r] * Li.a[c][k]; ed = std::max(ed, fabsl((LD)Q[c][r] - w)); ec = std::max(ec, fabsl((LD)Qc[c][r] - w)); }
 	  LD td = exact ? 0 : 64 * eps * kappa * (1 + na); if (!(ed <= td) || !(ec <= td)) fail("div_mm" + sfx, cls + ":A / M with A != M", ms(M), "A * inverse(M)", "max abs diff " + str((double)ed) + " (operator/) " + str((double)ec) + " (operator/=)"); }
+	// gtx/matrix_factorisation: M = Q R with orthonormal columns of Q and upper-triangular R (and M = R Q with orthonormal rows); gtx/matrix_query predicates
+	if (!exact) { glm::mat<N, N, T> Q, R; glm::qr_decompose(M, Q, R); LD e1q = 0, e2q = 0, e3q = 0; auto QR = Q * R; for (int c = 0; c < N; ++c) for (int r = 0; r < N; ++r) { e1q = std::max(e1q, fabsl((LD)QR[c][r] - (LD)M[c][r])); if (r > c) e3q = std::max(e3q, fabsl((LD)R[c][r])); LD d = 0; for (int k = 0; k < N; ++k) d += (LD)Q[c][k] * Q[r][k]; e2q = std::max(e2q, fabsl(d - (c == r))); }
+	  count("qr" + sfx); LD tq = 256 * eps * kappa * (1 + fro(L)); if (!(e1q <= tq && e2q <= tq && e3q <= tq)) fail("qr_decompose" + sfx, cls, ms(M), "Q R = M, Q^T Q = I, R upper triangular", "diffs " + str((double)e1q) + " " + str((double)e2q) + " " + str((double)e3q));
+	  glm::mat<N, N, T> Q2, R2; glm::rq_decompose(M, R2, Q2); LD f1 = 0, f2 = 0; auto RQ = R2 * Q2; for (int c = 0; c < N; ++c) for (int r = 0; r < N; ++r) { f1 = std::max(f1, fabsl((LD)RQ[c][r] - (LD)M[c][r])); LD d = 0; for (int k = 0; k < N; ++k) d += (LD)Q2[k][c] * Q2[k][r]; f2 = std::max(f2, fabsl(d - (c == r))); }
+	  if (!(f1 <= tq && f2 <= tq)) fail("rq_decompose" + sfx, cls, ms(M), "R Q = M, Q Q^T = I", "diffs " + str((double)f1) + " " + str((double)f2)); }
+	{ count("matrix_query" + sfx); glm::mat<N, N, T> I((T)1), Z((T)0), P = I; P[N - 1][0] = (T)0.25; bool ok = glm::isIdentity(I, (T)1e-6) && !glm::isIdentity(P, (T)1e-3) && glm::isNull(Z, (T)1e-6) && !glm::isNull(P, (T)1e-3) && glm::isNormalized(I, (T)1e-6) && !glm::isNormalized(I * (T)2, (T)1e-3) && glm::isOrthogonal(I, (T)1e-6) && !glm::isOrthogonal(P + glm::transpose(P), (T)1e-3);
+	  if (!ok) fail("matrix_query" + sfx, "predicates", "identity / null / one entry changed", "isIdentity, isNull, isNormalized, isOrthogonal on the obvious cases", "differs"); }
 	glm::vec<N, T> v; for (int i = 0; i < N; ++i) v[i] = (T)(i + 1); auto q1 = M / v; auto q2 = Inv * v; auto q3 = v / M; auto q4 = v * Inv;
 	for (int i = 0; i < N; ++i) if (q1[i] != q2[i] || q3[i] != q4[i]) fail("div_mv" + sfx, cls, ms(M), "inverse(M)*v", "differs");
 }
